@@ -23,13 +23,13 @@ Modelling decisions (each is checked by the correspondence harness `harness/c03.
   `l_i > half_width` compares an `int` with a `float` exactly.  For `|W| < 2^53` the float `W/2`
   is exact, hence `l > W/2 ⇔ 2*l > W`; the model uses the integer form.  (`Inst.Valid` bounds
   `W, H ≤ 10^12 < 2^53`.)
-* `//` is Python floor division; all divisors are ≥ 1 for valid instances (`Proofs/LowerBound`:
-  `divisors_pos`), where it agrees with Lean's `Int` division `/`.  The driver answers `ERR` when
+* `//` is Python floor division; all divisors are ≥ 1 for valid instances (`Props/C03.lean :
+  damv_defined`), where it agrees with Lean's `Int` division `/`.  The driver answers `ERR` when
   a divisor is `0` (Python: `ZeroDivisionError`) or the `max()` over `q` is empty (`ValueError`).
 * `list.sort(reverse=True)` on Python ints: the result is the unique non-increasing
   rearrangement; it is modelled by an insertion sort (`sortDesc`).
-* the `while h > 1` loop is modelled with fuel `h` (`cutLoop`); `Proofs/LowerBound.lean :
-  cutLoop_fuel` shows the fuel never runs out (result independent of any larger fuel).
+* the `while h > 1` loop is modelled with fuel `h` (`cutLoop`); `Proofs/LowerBoundCut.lean :
+  cutLoop_fuel` (`Props/C03.lean : cutLoop_fuel_enough`) shows the fuel never runs out (result independent of any larger fuel).
 -/
 namespace Pack
 namespace LB
@@ -142,7 +142,7 @@ def lowerBoundDamv (W H : Int) (items : List Item) : Int :=
   max 1 (maxOf ((qRange f.2).map (fun q => lbQ f.1 f.2 q sq)))
 
 /-- Python would raise instead of returning a number (`ZeroDivisionError` in `__lb_q`, `max()` of
-an empty range); never the case for valid instances (`Proofs/LowerBound.lean : divisors_pos`) -/
+an empty range); never the case for valid instances (`Props/C03.lean : damv_defined`) -/
 def damvRaises (W H : Int) : Bool :=
   let f := frame W H
   f.2 / 2 + 1 ≤ 0 || f.1 == 0 || f.1 / (f.2 / 2 + 1) == 0
